@@ -321,6 +321,9 @@ func (e *Exec) chanClose(st *State, instr ssa.Instruction, ch Val) {
 	st.wrote("chan#closed", c)
 	e.setArr(st, "chan#closed", s, app("store", a, c, "true"))
 	st.counts["close"]++
+	if e.fc != nil {
+		e.stableInvs(st, true, instr, "after@"+e.callAnchor(st.top(), instr))
+	}
 }
 
 // nopanicAlways: like nopanic but emitted for every function under contract
